@@ -63,8 +63,8 @@ claim("C20", "model_checking",
       "Decides Lookup totality, encode/decode identity (incl. migrations and phases), decoder robustness on arbitrary bytes, version discipline of every mutator, and for rebalance/add/remove plans: distinct hash slots, From = current owner, To != From, and a balanced table after applying the plan, for every assignment of the stated sizes.",
       "H <= 6 hash slots (8 thorough), slot ids 1..3 (4), <=2 migrations; add/remove from balanced tables (DESIGN 3); decoder count field restricted to small values plus representatives. " + TB)
 claim("C24", "other",
-      "Slice: decides that every frame<->JSON-RPC message conversion (ToFrame/FromFrame, *Params.ToProto, FromProto*, setting/header flag mappings, request-id stamping, reply-token FIFO) carries every field without loss or swap, and IsJSONObjectPrefix on arbitrary bytes.",
-      "encoding/json Encode/Decode (reflection) is outside: the 'arbitrary JSON never panics' clause is not claimed; int->uint8 narrowings assumed to fit. " + TB)
+      "Slice: decides that every frame<->JSON-RPC message conversion (ToFrame/FromFrame, *Params.ToProto, FromProto*, setting/header flag mappings, request-id stamping, reply-token FIFO) carries every field without loss or swap, and IsJSONObjectPrefix on arbitrary bytes. Decode (real encoding/json, executed exactly) over a catalogue of 58 JSON documents: no panic, a message xor an error, a returned message well formed for its kind (a response carries exactly one of result / error), Encode + Decode of an accepted message reproduces its encoding.",
+      "The 'arbitrary JSON' clause is claimed only for the enumerated catalogue of documents (the JSON text cannot be symbolic: encoding/json is run by the real library on concrete text); int->uint8 narrowings assumed to fit. " + TB)
 claim("C25", "model_checking",
       "Decides CBC chaining + PKCS#7 + base64 round trip for every payload length 0..33 (49 thorough), rejection of malformed padding without out-of-range access, session key agreement, and that SendMsgKey/ValidateSendPacket accept the genuine key and reject any single-field tamper; AES/MD5/X25519 abstract.",
       "Primitives are algebraic contracts (permutation per key, injective hash, DH commutativity); a proven base64 Decode(Encode(x)) = x lemma is used as a rewrite. " + TB)
